@@ -26,6 +26,7 @@
   OBLIGATION c17_witness_interface_order
   OBLIGATION c17_witness_dynamic_registration
   OBLIGATION c17_witness_compose_url
+  OBLIGATION c17_witness_federation_scalar_any
   OBLIGATION c17_tokens_compose_block
   OBLIGATION c17_tokens_wf_any_order
   OBLIGATION c17_compose_groups_spec
@@ -184,6 +185,16 @@ theorem c17_witness_compose_url :
     ((AGV.Lemmas.SdlSkeleton.groupToks ("a\"b".toList, ["@cd".toList])).length + 1) (by simp)
   simpa [AGV.Spec.SdlParse.parseTokens, AGV.Lemmas.SdlSkeleton.groupToks, AGV.Lemmas.SdlSkeleton.xGroup] using this
 
+/-- a user's scalar named `Any` in a federation export: with the toggle nothing is written for it
+    (the fields that use it then refer to an undefined type); the repaired exporter defines it,
+    as the description requires -/
+theorem c17_witness_federation_scalar_any :
+    exportType { fedScalarAnyDropped := true } { federation := true } (.scalar "Any".toList {} none) = [] ∧
+    exportType Defects.none { federation := true } (.scalar "Any".toList {} none) = "scalar Any\n\n".toList ∧
+    AGV.Spec.SdlParse.dType { federation := true } (.scalar "Any".toList {} none) =
+      some (.type false "Any".toList none [] .scalar) := by
+  refine ⟨by decide, by decide, rfl⟩
+
 -- ------------------------------------------------------------------ the document: type-definition skeleton
 
 section Skeleton
@@ -196,7 +207,7 @@ def typeDefsText (S : Schema) (o : Opts) : Text :=
 /-- the type definitions of the required document: the first part of `describe` -/
 def typeDefsDoc (o : Opts) (S : Schema) : List SDef :=
   ((sorted true TypeDef.name S.types).filter
-    (fun t => !startsDunder t.name && !(o.federation && (federationTypeNames.contains t.name || t.name = kwT "Any")))).filterMap (dType o)
+    (fun t => !startsDunder t.name && !(o.federation && federationTypeNames.contains t.name))).filterMap (dType o)
 
 theorem register_none (k : Kind) (S : Schema) : register Defects.none k S = S := by
   unfold register
@@ -232,13 +243,11 @@ theorem c17_tokens_partial (k : Kind) (S : Schema) (o : Opts) (ho : o.federation
     parseSchema (typeDefsText S o) = some (typeDefsDoc o S) := by
   refine ⟨⟨_, by rw [run, register_none]; unfold exportSdl exportSdlG typeDefsText; rw [List.append_assoc]⟩, fun reg groups present => ⟨_, by simp only [describe, typeDefsDoc, List.append_assoc]; rfl⟩, ?_⟩
   have hfilt : (sorted true TypeDef.name S.types).filter
-      (fun t => !startsDunder t.name && !(o.federation && (federationTypeNames.contains t.name || t.name = kwT "Any"))) =
+      (fun t => !startsDunder t.name && !(o.federation && federationTypeNames.contains t.name)) =
       (sortByName TypeDef.name S.types).filter (typeExported o) := by
     have : sorted true TypeDef.name S.types = sortByName TypeDef.name S.types := rfl
     rw [this]
     congr 1
-    funext t
-    simp [typeExported, ho, startsDunder_eq]
   unfold typeDefsDoc at hne ⊢
   rw [hfilt] at hne ⊢
   have hmem : ∀ t ∈ (sortByName TypeDef.name S.types).filter (typeExported o), t ∈ S.types :=
@@ -302,7 +311,7 @@ example : (∀ t ∈ fullWitness.types, SkelType t) ∧ typeDefsDoc {} fullWitne
   · intro h
     have hm : TypeDef.interface "Node".toList {} false [] [⟨"id".toList, {}, .named "ID".toList false, []⟩] ∈
         (sorted true TypeDef.name fullWitness.types).filter
-          (fun t => !startsDunder t.name && !(({} : Opts).federation && (federationTypeNames.contains t.name || t.name = kwT "Any"))) := by
+          (fun t => !startsDunder t.name && !(({} : Opts).federation && federationTypeNames.contains t.name)) := by
       rw [List.mem_filter]
       refine ⟨?_, by decide⟩
       unfold sorted
@@ -533,8 +542,8 @@ theorem c17_compose_groups_spec (ds : List DirDef) : composeGroups ds = linkGrou
     values are not true / false / null, values are printable, non-empty field / member / value /
     location lists, no `__` field, no deprecation on a type itself, locations are directive
     locations) and, for a federation export, `federationOk` (decidable: no `_service` /
-    `_entities` field, no non-scalar type named `Any`, no custom directive application named
-    `tag` / `inaccessible`; composable directive definitions are allowed) — the text the repaired
+    `_entities` field, no custom directive application named `tag` / `inaccessible`; composable
+    directive definitions and types named `Any` of any kind are allowed) — the text the repaired
     exporter writes (compose blocks in order of first appearance), lexed by the specification's
     lexer and parsed by the reference parser, is the description of the registered schema
     (`cDoc`: directive applications compared up to the order of differently named directives; the
